@@ -31,7 +31,9 @@ RULE = ('case = (function: gather_excs consumed by async-for | raise_first_exc; 
         '{return, EBase, ESub(EBase), [EOther,] BOnly(BaseException)} x every weak ordering of finishing times '
         '(ties included) x only in {default, Exception, EBase, ESub, BOnly}; random layer: 2..7 awaitables, random '
         'forests of 4..9 classes, delays 0..6, call tick 0..4 (tasks/futures may already be done), mixed forms, '
-        'aws given as list/tuple/generator; plus tasks / futures cancelled by the script before or during gather '
+        'aws given as list/tuple/generator; exception classes whose instances are FALSY (__len__ returning 0 / '
+        '__bool__ returning False, inherited by subclasses) rotated over the exhaustive layer, in a dedicated '
+        'block for both functions and in half of the random cases; plus tasks / futures cancelled by the script before or during gather '
         '(CancelledError results: all 1..2-element lists with at least one of them x only in {default, Exception, '
         'CancelledError, BOnly} x both functions, and 20 % of the random cases).  observation = per-awaitable (completed|cancelled|pending, tick), every '
         'yield with tick and number of completed awaitables, how the consumer ended.  non-trivial = >= 2 awaitables, '
@@ -61,20 +63,28 @@ H7 = [None, 0, 1, 2, 1, 0, 5]
 _CLASS_CACHE = {}
 
 
-def classes_for(hier, cancel_cls=None):
+def classes_for(hier, cancel_cls=None, falsy=()):
     """class objects of the forest; class `cancel_cls` (a child of BaseException without
-    descendants) is asyncio.CancelledError itself"""
+    descendants) is asyncio.CancelledError itself; `falsy` = ((class, 'len'|'bool'), ...): classes whose
+    INSTANCES have a false truth value (an empty aggregate error: __len__ returns 0 / __bool__ returns
+    False; inherited by their subclasses) — an exception is an exception whatever bool(e) says"""
     import asyncio
-    key = (tuple(hier), cancel_cls)
+    fz = {int(c): k for c, k in falsy}
+    key = (tuple(hier), cancel_cls, tuple(sorted(fz.items())))
     cl = _CLASS_CACHE.get(key)
     if cl is None:
         cl = [BaseException, Exception]
         for i in range(2, len(hier)):
             if i == cancel_cls:
-                assert hier[i] == 0 and cancel_cls not in hier
+                assert hier[i] == 0 and cancel_cls not in hier and i not in fz
                 cl.append(asyncio.CancelledError)
             else:
-                cl.append(type(f'HExc{i}', (cl[hier[i]],), {}))
+                ns = {}
+                if fz.get(i) == 'len':
+                    ns['__len__'] = lambda self: 0
+                elif fz.get(i) == 'bool':
+                    ns['__bool__'] = lambda self: False
+                cl.append(type(f'HExc{i}', (cl[hier[i]],), ns))
         _CLASS_CACHE[key] = cl
     return cl
 
@@ -84,7 +94,7 @@ def run_impl(case):
     from ..vloop import Sim, TICK
     from aiuti.asyncio import gather_excs, raise_first_exc
     logging.disable(logging.CRITICAL)
-    cl = classes_for(case['hier'], case.get('cancel_cls'))
+    cl = classes_for(case['hier'], case.get('cancel_cls'), case.get('falsy') or ())
     specs = case['aws']
     n = len(specs)
     sim = Sim()
@@ -262,12 +272,19 @@ def signature(case, o):
 
 # ---- generators -------------------------------------------------------------
 
-def mk(mode, aws, only, hier=None, tcall=0, cont='list', cancel_cls=None):
+def mk(mode, aws, only, hier=None, tcall=0, cont='list', cancel_cls=None, falsy=None):
     c = dict(mode=mode, hier=list(H7 if hier is None else hier), only=only, tcall=tcall,
              aws=[list(a) for a in aws], cont=cont)
     if cancel_cls is not None:
         c['cancel_cls'] = cancel_cls
+    if falsy:
+        c['falsy'] = [list(x) for x in falsy]
     return c
+
+
+# truth-value variants of the fixed forest, rotated over the exhaustive layer: none | EBase (hence ESub)
+# sized 0 | ESub bool-False and BOnly (hence BSub) sized 0 | every harness class falsy
+FALSY_VARIANTS = [None, [(2, 'len')], [(3, 'bool'), (5, 'len')], [(2, 'bool'), (4, 'len'), (5, 'bool')]]
 
 
 # H7 plus class 7 = asyncio.CancelledError (a child of BaseException): outcome of the awaitables the
@@ -312,6 +329,14 @@ def corpus():
         # tasks / futures that are already done when the call is made
         mk('gather', [('T', 1, 2), ('F', 5, 3), ('C', 1, None), ('F', 0, 5)], None, tcall=3),
         mk('raise', [('T', 1, None), ('F', 5, 3), ('C', 1, 2), ('T', 0, None)], 1, tcall=2, cont='gen'),
+        # exceptions whose truth value is False (empty aggregate errors): still the first one is raised,
+        # still all are yielded (seeded C20-m9: `first = first or exc` / `if first:`)
+        mk('raise', [('C', 1, 2), ('C', 0, 4)], None, falsy=[(2, 'len')]),
+        mk('raise', [('C', 1, 3), ('C', 0, 4)], 1, falsy=[(3, 'bool')]),
+        mk('raise', [('C', 1, None), ('C', 0, 3)], 2, falsy=[(2, 'len')]),
+        mk('raise', [('C', 0, 5), ('C', 1, 2), ('C', 2, 6)], None, falsy=[(2, 'bool'), (5, 'len')]),
+        mk('gather', [('C', 1, 2), ('C', 0, 4), ('F', 2, 3)], None, falsy=[(2, 'len'), (4, 'bool')]),
+        mk('gather', [('T', 1, 5), ('C', 0, 3)], 0, falsy=[(3, 'bool'), (5, 'bool')], cont='gen'),
         # tasks / futures cancelled by the script before gather: CancelledError results, admitted by the
         # default `only` and by CancelledError, not by Exception
         mk('gather', [('XT', 0, CC), ('C', 1, 2), ('XF', 0, CC)], None, hier=H8, tcall=1, cancel_cls=CC),
@@ -354,8 +379,27 @@ def gen_exhaustive(tier, seed):
                         else:
                             fs = ['C'] * n
                         out.append(mk(mode, [(fs[i], dv[i], oc[i]) for i in range(n)], only,
-                                      cont=['list', 'tuple', 'gen'][k % 3]))
-    return out + gen_cancel_block()
+                                      cont=['list', 'tuple', 'gen'][k % 3],
+                                      falsy=FALSY_VARIANTS[(k // 2) % 4] if n else None))
+    return out + gen_cancel_block() + gen_falsy_block()
+
+
+def gen_falsy_block():
+    """every list of 1..2 awaitables over {return, EBase, ESub, EOther, BOnly} x every non-trivial
+    truth-value variant x only in {default, Exception, EBase, BOnly} x BOTH functions (so each outcome
+    list is seen by raise_first_exc with the first match falsy / all matches falsy / a later one falsy)"""
+    out = []
+    for n in (1, 2):
+        for oc in itertools.product([None, 2, 3, 4, 5], repeat=n):
+            if all(o is None for o in oc):
+                continue
+            for fv in FALSY_VARIANTS[1:]:
+                for only in (None, 1, 2, 5):
+                    for mode in ('raise', 'gather'):
+                        dv = [n - 1 - i for i in range(n)] if len(out) % 2 else [0] * n
+                        out.append(mk(mode, [('C', dv[i], oc[i]) for i in range(n)], only, falsy=fv,
+                                      cont=['list', 'tuple', 'gen'][len(out) % 3]))
+    return out
 
 
 def rand_forest(rnd):
@@ -400,9 +444,12 @@ def gen_random(tier, seed):
             while h[chain[-1]] is not None:
                 chain.append(h[chain[-1]])
             only = rnd.choice(chain)
+        falsy = None
+        if rnd.random() < 0.5:
+            falsy = [(c, rnd.choice(['len', 'bool'])) for c in range(2, m) if rnd.random() < 0.4]
         out.append(mk(rnd.choice(['gather', 'gather', 'raise']), aws, only, hier=h,
                       tcall=rnd.choice([0, 0, 1, 2, 3, 4]), cont=rnd.choice(['list', 'tuple', 'gen']),
-                      cancel_cls=cc))
+                      cancel_cls=cc, falsy=falsy))
     return out
 
 
@@ -424,20 +471,28 @@ def shrink_candidates(case):
             out.append(dict(case, aws=aws[:i] + [[a[0], a[1] - 1, a[2]]] + aws[i + 1:]))
     if case.get('cont', 'list') != 'list':
         out.append(dict(case, cont='list'))
+    fz = case.get('falsy') or []
+    for i in range(len(fz)):
+        out.append(dict(case, falsy=fz[:i] + fz[i + 1:]))
     return out
 
 
 def distribution(cases, obs):
     d = dict(gather=0, raise_first=0, awaitables=0, failures=0, base_only_failures=0, coroutines=0, tasks=0,
              futures=0, only_default=0, yields=0, raised=0, returned_none=0, call_after_start=0,
-             finishing_order_differs=0, cancelled_by_script=0, len_hist={})
+             finishing_order_differs=0, cancelled_by_script=0, falsy_failures=0, len_hist={})
     for c, o in zip(cases, obs):
         d['gather' if c['mode'] == 'gather' else 'raise_first'] += 1
         n = len(c['aws'])
         d['len_hist'][str(n)] = d['len_hist'].get(str(n), 0) + 1
         d['awaitables'] += n
         h = c['hier']
+        fz = {x[0] for x in (c.get('falsy') or [])}
         for f, dl, oc in c['aws']:
+            x = oc
+            while x is not None and x not in fz:
+                x = h[x]
+            d['falsy_failures'] += oc is not None and x is not None
             d[{'C': 'coroutines', 'T': 'tasks', 'F': 'futures', 'XT': 'tasks', 'XF': 'futures'}[f]] += 1
             d['cancelled_by_script'] += f[0] == 'X'
             if oc is not None:
